@@ -63,10 +63,11 @@ func diffSnap(a, b snap, allowGrad bool) string {
 	if a.tracked != b.tracked {
 		return fmt.Sprintf("tracking changed %v -> %v", a.tracked, b.tracked)
 	}
-	if a.edges != b.edges {
+	// (after a back-propagation a library may release the graph: edges are judged only before it)
+	if !allowGrad && a.edges != b.edges {
 		return fmt.Sprintf("back edges changed %d -> %d", a.edges, b.edges)
 	}
-	if a.edgeIDs != b.edgeIDs {
+	if !allowGrad && a.edgeIDs != b.edgeIDs {
 		return "the tensor's back edges now lead to other tensors (its history was replaced)"
 	}
 	// a.scalars / b.scalars (reflective dump of every other bookkeeping field)
